@@ -27,6 +27,7 @@ def outcomeName : Remove.Outcome → String
   | .failed .isSetup => "IsSetup"
   | .failed .noPermission => "NoPermission"
   | .failed .tagNotFound => "NoSuchTag"
+  | .failed .eof => "EOF"
 
 def pairJson (p : Str × Str) : Json := Json.arr #[ofStr p.1, ofStr p.2]
 
@@ -35,10 +36,18 @@ def stateToJson (s : State) : List (String × Json) :=
    ("tags", Json.arr (s.tags.map fun t => Json.arr #[ofStr t.1, ofStr t.2.1, ofStr t.2.2]).toArray),
    ("dirs", Json.arr (s.dirs.map pairJson).toArray)]
 
-/-- `{"m":"c14","graph":G,"default":name|null,"cases":[[name,version,recursive,check,force,[[n,v]..],readOnlyDb,how]..]}` (how = "version" | "tag:T" | "untag:T") →
+/-- `{"m":"c14","graph":G,["declare":P,]"default":name|null,"cases":[[name,version,recursive,check,force,[[n,v]..],readOnlyDb,how]..]}` (how = "version" | "tag:T" | "untag:T") →
 for every case the outcome, the state afterwards and the products removed (each case starts from G). -/
 def handle : Handler := fun j => do
   let s ← stateOfJson (← j.getObjVal? "graph")
+  -- a history: `declare` of one more product before the cases (the commands before it are not part of the request:
+  -- the model of `remove` is a function of the current state)
+  let s ← match j.getObjVal? "declare" with
+    | .ok (Json.obj o) => do
+      let p := Json.obj o
+      let deps ← (← jarr p "deps").mapM (C13.depOfJson [])
+      pure (declare s { name := ← jstr p "name", ver := ← jstr p "version", deps := deps })
+    | _ => pure s
   let dflt ← jstrOpt j "default"
   let cases ← jarr j "cases"
   let needUses ← cases.anyM fun c => do
@@ -61,6 +70,12 @@ def handle : Handler := fun j => do
           pure (removeWith s0 uses nm (Str.ofString (← v.getStr?)) (← r.getBool?) (← chk.getBool?) (← f.getBool?) dflt)
         else if how.startsWith "tag:" then
           pure (removeByTag s0 uses nm (Str.ofString (how.drop 4).toString) (← r.getBool?) (← chk.getBool?) (← f.getBool?) dflt)
+        else if how.startsWith "ask:" then
+          -- `eups remove -i`: the answers typed, one letter each (y n q ! e = empty line, x = anything else)
+          let answers := (how.drop 4).toString.toList.map fun c =>
+            match c with
+            | 'y' => Ans.y | 'n' => Ans.n | 'q' => Ans.q | '!' => Ans.bang | 'e' => Ans.empty | _ => Ans.other
+          pure (removeWithI s0 uses nm (Str.ofString (← v.getStr?)) (← r.getBool?) (← chk.getBool?) (← f.getBool?) dflt answers)
         else if how.startsWith "untag:" then
           pure (Remove.Outcome.ok, untag s0 (Str.ofString (how.drop 6).toString), ([] : List Deps.Prod))
         else throw s!"unknown form {how}"
